@@ -157,7 +157,10 @@ def build(tier, rng):
                 try:
                     back = thunk()
                 except Exception as err:  # noqa: BLE001
-                    if fmt == "uri" and blank(lab) and isinstance(err, AssertionError):
+                    if fmt == "uri" and blank(lab) and "missing label" in str(err):
+                        # recorded finding: to_uri() renders a label of white space only, from_uri() strips it and then misses it
+                        g.fail("totp:uri-label-blank", "to_uri accepts a label consisting of white space only, from_uri then refuses its own URI (missing label)", dict(w, error=repr(err)))
+                    elif fmt == "uri" and blank(lab) and isinstance(err, AssertionError):
                         g.fail("totp:uri-label-blank", "to_uri accepts a label consisting of white space only, from_uri then dies with AssertionError", dict(w, error=repr(err)))
                     else:
                         g.fail(f"roundtrip:{fmt}:load-raised", "loading the serialised form raised", dict(w, error=repr(err)))
